@@ -106,7 +106,11 @@ def run_items(items, job):
             ("scan", lambda: app.scan_files(paths, extra=sargs)),
             ("list", lambda: app.scan_files(["-l"] + paths, extra=sargs)),
             ("stdin", lambda: app.scan_text(files["a.md"], extra=sargs)),
+            # input that cannot be written to the capture file: the scan fails, but still must leave nothing behind
+            ("stdin-undecodable", lambda: app.scan_text(files["a.md"][:40] + " \udc80 x\n", extra=sargs)),
         ):
+            if label == "stdin-undecodable" and ci % 4:
+                continue
             del _AUDIT[:]
             o = fn()
             R.count("readonly_invocations")
